@@ -172,7 +172,33 @@ def _classify(case, detail):
     return None
 
 
+# ---- listed formulas whose tree no generator above spells: (text, exported text of Excel's tree) ---------------------------------
+LISTED = [
+    ('=SUM(A1:(B2))', 'SUM((A1: B2))'), ('=SUM((A1):B2)', 'SUM((A1: B2))'), ('=SUM((A1,C3):(B2))', 'SUM(((A1, C3): B2))'),
+    ('=SUM((A1,C3):B2)', 'SUM(((A1, C3): B2))'), ('=SUM((A1 A1:B2):C3)', 'SUM(((A1 A1:B2): C3))'), ('=(1+2)*3', '((1 + 2) * 3)'),
+    ('=-(1+2)%', '-(1 + 2)%'), ('=2^(1+1)^2', '((2 ^ (1 + 1)) ^ 2)'), ('=IF(1,,3)', 'IF(1, , 3)'), ('=SUM(1,)', 'SUM(1, )'),
+    ('= ( 1 + 2 ) * 3 ', '((1 + 2) * 3)'), ('=sum( a1 , B2 )', 'SUM(A1, B2)'),
+]
+
+
+def _check_listed(case):
+    text, want = case
+    try:
+        got = _parse(text)[-1].get_expr
+    except Exception as ex:
+        return '%s did not parse (%s); expected tree %s' % (text, type(ex).__name__, want)
+    return None if got == want else '%s parsed as %s, Excel tree is %s' % (text, got, want)
+
+
+def _classify_listed(case, detail):
+    # a range operator directly after a closing parenthesis
+    return 'KF-C01-3' if '):' in case[0].replace(' ', '') and 'parsed as' in detail and ', :' in detail else None
+
+
 BOUNDED = [
+    Stage('B1:listed-formulas', 'C01', lambda tier, rng: list(LISTED), _check_listed,
+          '%d listed formulas (range operator next to parentheses, empty arguments, redundant blanks and case) with the exported text of '
+          "Excel's tree" % len(LISTED), parallel=False, classify=_classify_listed),
     Stage('B1:every-pair-and-triple-of-operators', 'C01', _pairs_triples, _check_tree,
           'all 144 ordered pairs of binary operators (plain, with a prefix sign or a postfix % at each operand) and all 1728 triples: '
           'exported text = rendering of the tree of the spec precedence-climbing parser; value = value of the exported text = spec value',
